@@ -267,12 +267,17 @@ MUST_FIRE += [
     ("m94", ["C16"], ["K6", "K9"], on_seed("R7-c", rep1(S + "find_local_clifford_layer.py", "    for coefficients in itertools.product([0, 1], repeat=basis.shape[0]):", "    for coefficients in list(itertools.product([0, 1], repeat=basis.shape[0]))[:-1]:")), "helper-based search (R7-c) whose span generator leaves out the sum of all kernel rows"),
     ("m96", ["C16"], ["K9"], on_seed("R7-c", rep1(S + "find_local_clifford_layer.py", "    for coefficients in itertools.product([0, 1], repeat=basis.shape[0]):\n", "    for coefficients in itertools.product([0, 1], repeat=basis.shape[0]):\n        if len(coefficients) > 1 and all(coefficients):\n            continue\n")), "helper-based search (R7-c) whose span generator skips the sum of ALL kernel rows when there are several"),
     ("m97", ["C08"], ["G6"], rep1(S + "mub_circuits.py", "    assert_connectivity_is_supported(num_qubits, connectivity)\n    return circuit_lookup.mub_circuit_lookup(num_qubits, connectivity).circuits", "    assert_connectivity_is_supported(connectivity, num_qubits)\n    return circuit_lookup.mub_circuit_lookup(num_qubits, connectivity).circuits"), "support gate asked with its arguments swapped: every valid request is refused"),
+    ("m98", ["C09"], ["W10"], rep1(S + "mub_circuits.py", "    return circuit_lookup.mub_circuit_lookup(num_qubits, connectivity).mubs", "    return circuit_lookup.mub_circuit_lookup(connectivity, num_qubits).mubs"), "get_mubs asks the table accessor with its arguments swapped (every valid request dies with FileNotFoundError; no passing test calls get_mubs)"),
+    ("m99", ["C16"], ["K6"], rep1(S + "find_local_clifford_layer.py", "    m = R.shape[1]", "    m = R.shape[0]"), "number of operators read from the wrong axis: right for full stabilizers, raises for fewer operators than qubits"),
+    ("m100", ["C03", "C09"], ["K1"], rep1(S + "circuit_lookup.py", "                qc.cx(qubits[0], qubits[1])", "                qc.cx(qubits[1], qubits[0])"), "loader swaps control and target of cx"),
     ("m95", ["C19"], ["K12"], rep1(S + "graph.py", "    def compress(self) -> int:", "    def compress(self) -> int:\n        if getattr(self, \"_id\", None) is not None:\n            return self._id\n        self._id = self._compress()\n        return self._id\n\n    def _compress(self) -> int:"), "graph id remembered by the object and never invalidated"),
     ("m72", ["C13"], ["A3"], rep1(S + "circuit_lookup.py", "result.circuits = [circuit.copy() for circuit in self.circuits]", "result.circuits = list(self.circuits)"), "fresh list of the cached circuits"),
 ]
 
 MUST_STAY_SILENT = [
     # id, properties to run, edit, exit 2 tolerated?, note
+    ("s29", ["C02", "C03", "C04", "C09", "C17"], rep1(S + "circuit_lookup.py", "                qc.cz(qubits[0], qubits[1])", "                qc.cz(qubits[1], qubits[0])"), False, "operands of the symmetric cz given in the other order: the same gate"),
+    ("s30", ["C02", "C04"], rep1(S + "circuit_lookup.py", "                qc.cx(qubits[0], qubits[1])", "                qc.cx(qubits[1], qubits[0])"), False, "cx direction swapped: breaks the state (C03/C09: m100), not coupling or cost"),
     ("s01", ["C02", "C03", "C04", "C08", "C09", "C10", "C11", "C12", "C13", "C14", "C16", "C18", "C19"], _reformat, False, "comments / blank lines added everywhere"),
     ("s02", ["C02", "C03", "C04", "C07"], multi(rep1(S + "stabilizer_circuits.py", "    circuit = _get_preparation_circuit_modulo_phase(stabilizer, connectivity)\n    return rotate_stabilizer_into_state(circuit, stabilizer, inplace=True)", "    qc_mod_phase = _get_preparation_circuit_modulo_phase(stabilizer, connectivity)\n    return rotate_stabilizer_into_state(qc_mod_phase, stabilizer, inplace=True)")), False, "local renamed"),
     ("s03", ["C13", "C02", "C04"], rep1(S + "circuit_lookup.py", "    try:\n        circuitInfos = stabilizer_file_cache[filename]\n    except KeyError:\n        lines = pkg_resources.read_text(data, filename).split(\"\\n\")\n        circuitInfos = [StabilizerCircuitInfo(num_qubits, line) for line in filter(lambda x: len(x) != 0, lines)]\n        stabilizer_file_cache[filename] = circuitInfos\n", "    if filename not in stabilizer_file_cache:\n        lines = pkg_resources.read_text(data, filename).split(\"\\n\")\n        stabilizer_file_cache[filename] = [StabilizerCircuitInfo(num_qubits, line) for line in filter(lambda x: len(x) != 0, lines)]\n    circuitInfos = stabilizer_file_cache[filename]\n"), True, "cache idiom as membership test"),
